@@ -421,6 +421,18 @@ def orientation(rep):
     d = local_defs(fc.node)
     A, B = fc.params[1], fc.params[2]
     b = pall(["$p, $h, $f = self._prepare_orientation($a, $b)", "self._last_pattern_is_G1 = $f", "self._mappings = self._search_subgraphs($p, $h, mcs=mcs)"], fc.node)
+    if b is None:
+        # the same three steps with further keyword arguments on the search call that are options newer than the pinned tree (they do not exist in its
+        # parameter inventory): such options are the callee's business, the wiring of (pattern, host, mcs) is what this rule is about
+        from ..specialise import baseline_params
+        old_params = set(baseline_params().get(MM, {}).get("MCSMatcher._search_subgraphs", []))
+        b2 = pall(["$p, $h, $f = self._prepare_orientation($a, $b)", "self._last_pattern_is_G1 = $f"], fc.node)
+        for st_ in walk_local(fc.node):
+            if b2 is not None and isinstance(st_, ast.Assign) and norm(st_.targets[0]) == "self._mappings" and isinstance(st_.value, ast.Call) \
+                    and norm(st_.value.func) == "self._search_subgraphs" and [norm(a_) for a_ in st_.value.args[:2]] == [b2["p"], b2["h"]] \
+                    and kwarg(st_.value, "mcs") is not None and norm(kwarg(st_.value, "mcs")) == "mcs" \
+                    and all(k_.arg is not None and (k_.arg == "mcs" or k_.arg not in old_params) for k_ in st_.value.keywords) and len(st_.value.args) == 2:
+                b = b2
     ok = b is not None and pmatch(f"self._prune_graph({A})", origin(d, ast.Name(id=b["a"], ctx=ast.Load()))) is not None \
         and pmatch(f"self._prune_graph({B})", origin(d, ast.Name(id=b["b"], ctx=ast.Load()))) is not None
     rep.ob("O12.3", "R17", fc, ok, "pattern, host, pattern_is_G1 = self._prepare_orientation(G1_use, G2_use)", "the orientation triple is unpacked in order, for (G1, G2)")
